@@ -112,7 +112,25 @@ Definition c10_run (input : list Z) : list Z :=
           end
       | None => ERR_DECODE
       end
-    else []     (* kind 5 (join): decided by the property oracle only *)
+    else if kind =? 5 then
+      (* join (start, segment): 1 + string form of the joined value | 0 *)
+      match take_lp r with
+      | Some (a, r1) =>
+          match take_lp r1 with
+          | Some (sg, []) =>
+              match did_url_parse (bytes_of a) with
+              | Ok u => match did_url_join u (bytes_of sg) with
+                        | Ok j => 1 :: zbytes (did_url_to_string j)
+                        | Err _ => [0]
+                        | Panic => [-777]
+                        end
+              | _ => []
+              end
+          | _ => ERR_DECODE
+          end
+      | None => ERR_DECODE
+      end
+    else []
   | [] => ERR_DECODE
   end.
 
